@@ -534,6 +534,13 @@ Fixpoint parse_params (fuel : nat) (s : string) (acc : list string) : option (li
       end
   end.
 
+(** the first parameter name that already occurred (each becomes a named capture group) *)
+Fixpoint first_dup (seen : list string) (ps : list string) : option string :=
+  match ps with
+  | [] => None
+  | x :: r => if existsb (String.eqb x) seen then Some x else first_dup (x :: seen) r
+  end.
+
 Definition parse_define (expr : string) : option (string * option (list string) * string) :=
   match find_ident expr with
   | None => None
@@ -664,12 +671,16 @@ Definition line_step (rec : string -> option (string * N) -> bool -> list string
                   match get_macro ms name with
                   | Some _ => err ESyntax fname line inc ("Macro " ++ name ++ " already defined")
                   | None =>
+                      match match params with Some ps => first_dup [] ps | None => None end with
+                      | Some d => err ESyntax fname line inc ("Duplicate macro parameter " ++ d)
+                      | None =>
                       let value := replace_all_c ms body in
                       let m := match params with
                                | None => (name, MObj value)
                                | Some ps => (name, MFun ps (templatize ps value))
                                end in
                       POk (set_macros p (ms ++ [m])%list)
+                      end
                   end
               end
           end
